@@ -244,7 +244,76 @@ def rule_widening(ctx):
         return t[0] == 'attr' and t[2] == 'kind' and t[1][0] == 'attr' and t[1][2] == 'dtype' and T.derives_from(t[1][1], NEWVAL) \
             and not T.derives_from(t[1][1], VALUES)
 
+    def interpreted(a, b):
+        """result kind of _maybe_cast_type for an array of kind a receiving a value of kind b, by interpreting the function (and whatever tables / helpers
+        it uses) on abstract arrays that only know their dtype kind; None when the interpreter cannot decide (the symbolic path below is used then)"""
+        from .. import absint
+        from ..absint import Interp, Closure, AbsObj, Undecided, Raised, TypeTok
+        mod = fi.module
+
+        def kind_of(d):
+            if isinstance(d, TypeTok):
+                return {'float': 'f', 'object': 'O', 'str': 'U', 'complex': 'c', 'int': 'i', 'bool': 'b'}.get(d.name)
+            if isinstance(d, str):
+                return d if d in KINDS else {'float': 'f', 'object': 'O', 'float64': 'f'}.get(d)
+            if isinstance(d, AbsObj) and 'kind' in d.attrs:
+                return 'same-as-new' if d.name == 'newdtype' else d.attrs['kind']
+            return None
+
+        def mkarr(name, kind):
+            dt = AbsObj(name + 'dtype' if name == 'new' else 'dtype_' + name, attrs={'kind': kind})
+            o = AbsObj(name, attrs={'dtype': dt})
+            o.methods = {'astype': lambda obj, args, kw: ('CAST', kind_of(args[0] if args else kw.get('dtype')))}
+            return o
+        values, newval = mkarr('values', a), mkarr('new', b)
+
+        def asarray(args, kw):
+            x = args[0]
+            d = kw.get('dtype', args[1] if len(args) > 1 else None)
+            if x is values:
+                return values if d is None else ('CAST', kind_of(d))
+            if x is newval and d is None:
+                return newval
+            raise Undecided('np.asarray(%r, dtype=%r)' % (x, d))
+        ext = {'np.asarray': asarray, 'np.array': asarray, 'np.asanyarray': asarray}
+        interp = Interp(ext, {})
+        env = {}
+        for name, f in mod.functions.items():
+            env[name] = Closure(f.node, env, interp)
+        interp.with_module(mod, env)
+        try:
+            out = interp.call_function(fi.node, [values, newval], env)
+        except (Undecided, Raised):
+            return None
+        if out is values:
+            return a
+        if isinstance(out, tuple) and len(out) == 2 and out[0] == 'CAST':
+            return out[1]
+        return None
+
+    n_interp = 0
     for a, b in itertools.product(KINDS, KINDS):
+        R = interpreted(a, b)
+        if R == 'same-as-new':
+            if a != b:
+                ctx.violated('R4', fi, 'array kind %s <- assigned kind %s' % (a, b),
+                             'the array is converted to the dtype of the assigned value, whose width is unknown (float16/32, int8...): existing %s-kind cells may be '
+                             'truncated; the widening must target a dtype that holds both (float / object)' % a)
+                continue
+            R = a
+        if R is not None:
+            n_interp += 1
+            if (a, b) in (('i', 'f'), ('u', 'f'), ('f', 'i'), ('f', 'u')) and R != 'f':
+                ctx.violated('R4', fi, 'array kind %s <- assigned kind %s' % (a, b), 'integer data receiving float values (NaN fill of reindex_axis / setna / fillna) must be promoted to float: '
+                             'kind %s <- %s yields %s (an object array: np.isnan and every later reduction fail on it)' % (a, b, R))
+            elif holds(R, a) and holds(R, b):
+                ctx.holds('R4', '%s <- %s : %s' % (a, b, R))
+            else:
+                ctx.violated('R4', fi, 'array kind %s <- assigned kind %s' % (a, b),
+                             'assigning %s-kind values into a %s-kind array with cast=True yields kind %s, which cannot hold %s without loss'
+                             % (b, a, R, b if not holds(R, b) else a))
+            continue
+
         def oracle(atom, st, a=a, b=b):
             if atom[0] == 'cmp' and atom[1] == '==':
                 x, y = atom[2], atom[3]
